@@ -44,7 +44,7 @@ pub struct Req {
     pub tamper: bool,
     pub tcp: bool,
     pub edns: bool,
-    /// 0 A www | 1 NXDOMAIN | 2 REFUSED | 3 MX
+    /// 0 A www | 1 NXDOMAIN | 2 REFUSED | 3 MX | 4 big TXT (truncated over UDP: the TSIG RR must survive)
     pub question: u8,
     pub upper_key_name: bool,
 }
@@ -117,7 +117,7 @@ impl Prop for C10 {
                     tamper: chance(r, 10),
                     tcp: chance(r, 30),
                     edns: chance(r, 30),
-                    question: r.below(4) as u8,
+                    question: r.below(5) as u8,
                     upper_key_name: chance(r, 20),
                 }
             })
@@ -196,7 +196,7 @@ impl Prop for C10 {
         "E3 simrt-sequential"
     }
     fn expected_probes() -> Vec<&'static str> {
-        vec!["c10_ok", "c10_badsig", "c10_badkey", "c10_badtime", "c10_formerr_mac_size", "c10_window_edge_accepted", "c10_window_edge_rejected", "c10_truncated_mac_accepted"]
+        vec!["c10_ok", "c10_badsig", "c10_badkey", "c10_badtime", "c10_formerr_mac_size", "c10_window_edge_accepted", "c10_window_edge_rejected", "c10_truncated_mac_accepted", "c10_truncated_signed_response"]
     }
 }
 
@@ -259,7 +259,8 @@ fn run(scn: &Scn) {
             0 => ("www.example.", wire::T_A),
             1 => ("nosuch.example.", wire::T_A),
             2 => ("www.elsewhere.", wire::T_A),
-            _ => ("example.", wire::T_MX),
+            3 => ("example.", wire::T_MX),
+            _ => ("big.example.", wire::T_TXT),
         };
         let unsigned = wire::query_full(0x1000 + i as u16, &wire::name(qn), qt, wire::C_IN, 0, if q.edns { Some(1232) } else { None });
         let spec = SignSpec { key_name: wire::name(&key_name), alg: sign_alg, alg_name, secret: secret.clone(), time: t_signed, fudge: q.fudge, mac_len };
@@ -329,7 +330,11 @@ fn run(scn: &Scn) {
                 let mut stripped = resp[..last.rr_off].to_vec();
                 let ar = u16::from_be_bytes([stripped[10], stripped[11]]) - 1;
                 stripped[10..12].copy_from_slice(&ar.to_be_bytes());
-                if stripped != want {
+                if m.tc() {
+                    // truncated: room for the TSIG RR changes where the cut falls, so only the
+                    // signature (checked above) and the absence of partial RRsets are required
+                    simrt::probe("c10_truncated_signed_response");
+                } else if stripped != want {
                     viol("signed-answer-differs-from-unsigned-answer", detail("response without its TSIG RR differs from the response to the unsigned query"));
                     break;
                 }
